@@ -6,18 +6,30 @@ generated (options on the command line, configuration file, positional words, da
 resolved attribute, the expanded jugdir, sys.argv and the error class are compared with
 Model.Options.run on the generated table inside coqc.  backends.select is compared with
 Model.Options.backend_of.
+Discovery: options.parse(args) WITHOUT an options file (what the `jug` command does) is run in fresh
+interpreters (subprocess; the first case of each child is the first parse of its process) whose HOME is a
+scratch directory holding any subset of the candidate rc files (~/.config/jug/jugrc, ~/.config/jugrc,
+~/.jug/configrc: absent / a file / a directory = exists but cannot be opened) with overlapping and disjoint
+settings; every resolved option is compared with Model.Options.run_home on the generated candidate list
+(the FIRST existing candidate is the configuration file, only that one) and with the Python restatement.
 Search (independent of Coq): a plain Python restatement of the property
     value = command line ?? coerce(type of default, configuration file) ?? default
 is compared with parse(), (a) systematically for every option x every combination of layers and
 (b) on the random cases; the store location is compared across all subcommands."""
+import atexit
 import collections
 import contextlib
 import datetime as _dt
 import io
+import json
 import logging
+import os
 import re
+import subprocess
 import sys
+import time
 import traceback
+from concurrent.futures import ThreadPoolExecutor
 
 from . import core
 from . import jugrun
@@ -35,7 +47,9 @@ EVIDENCE = dict(
     rule='case = (subcommand, options on the command line in order, positional words, configuration file entries, date); '
          'observed = error class or (every option attribute, expanded jugdir, sys.argv).  A case is non-trivial when the '
          'command line or the configuration file sets at least one option; distinct = distinct case tuples.  '
-         'systematic = every option x {absent, present} on the command line x {absent, present(values)} in the configuration file.',
+         'systematic = every option x {absent, present} on the command line x {absent, present(values)} in the configuration file.  '
+         'discovery case = (command line, what lies at each candidate rc path of a scratch HOME, date), parsed without an options '
+         'file in a fresh interpreter; discovery-systematic = every subset of the candidate files x command line with/without overrides.',
     explanation='Coq theorems over the option-table model (general in the table; side conditions decided for the table '
                 'generated from the source) + differential evaluation of the model against jug.options.parse and '
                 'backends.select + direct search with a Python restatement of the precedence rule',
@@ -164,11 +178,15 @@ def cfg_in_file_order(cfg):
     return [x for items in secs.values() for x in items]
 
 
-def case_lit(case, outcome_lit):
+def case_lit(case, outcome_lit, home=None):
+    """home=None: the configuration file case.cfg is passed to parse(); else: it is discovered in `home`"""
+    if home is None:
+        src = '(inl %s)' % listlit(['(%s, %s, %s)' % (cs(s), cs(k), cs(v)) for s, k, v in case.cfg])
+    else:
+        src = '(inr %s)' % home_lit(home)
     return ('({| c_sub := %s; c_opts := %s; c_pos := %s |}, %s, %s, %s)'
             % (cs(case.sub), listlit(['(%s, %s)' % (cs(f), cs(r or '')) for f, r in case.opts]),
-               listlit([cs(p) for p in case.pos]),
-               listlit(['(%s, %s, %s)' % (cs(s), cs(k), cs(v)) for s, k, v in case.cfg]), cs(case.date), outcome_lit))
+               listlit([cs(p) for p in case.pos]), src, cs(case.date), outcome_lit))
 
 
 def outcome_lit(obs, keys):
@@ -302,13 +320,16 @@ def same(a, b):
     return type(a) is type(b) and a == b if (a is not MISSING and b is not MISSING) else (a is b)
 
 
-def compare(ck, case, args, obs, exp, keys, defaults, family):
-    """Direct oracle.  Reports at most one violation per case; returns True when they agree."""
+def compare(ck, case, args, obs, exp, keys, defaults, family, extra=None, hint=None):
+    """Direct oracle.  Reports at most one violation per case; returns True when they agree.
+    extra: more fields for the replay object; hint(option, expected, observed) -> a more specific `what` or None."""
     def report(what, option, e, o, layers=None):
-        ck.violation({'kind': 'impl-violation', 'what': what, 'family': family, 'option': option,
-                      'args': args, 'config_text': render_cfg(case.cfg), 'date': case.date,
-                      'layers': layers, 'expected': jval(e), 'observed': jval(o),
-                      'how_to_run': 'bin/check C20 --replay <this file>'})
+        obj = {'kind': 'impl-violation', 'what': what, 'family': family, 'option': option,
+               'args': args, 'config_text': render_cfg(case.cfg), 'date': case.date,
+               'layers': layers, 'expected': jval(e), 'observed': jval(o),
+               'how_to_run': 'bin/check C20 --replay <this file>'}
+        obj.update(extra or {})
+        ck.violation(obj)
         return False
     if obs[0] != exp[0]:
         return report('outcome class differs: expected %s, observed %s' % (exp[0], obs[0]), None, exp[0], obs[0])
@@ -321,7 +342,10 @@ def compare(ck, case, args, obs, exp, keys, defaults, family):
                    'configuration file': exp[4]['configuration file'].get(k, '<absent>'),
                    'default': jval(defaults.get(k, MISSING)), 'expected value comes from': exp[3].get(k)}
             cfg_s = exp[4]['configuration file'].get(k)
-            if k == 'jugdir':
+            hinted = hint(k, e, o) if hint is not None else None
+            if hinted:
+                what = hinted
+            elif k == 'jugdir':
                 what = 'expanded jugdir differs'
             elif exp[3].get(k) == 'configuration file' and isinstance(e, bool) and o is bool(cfg_s):
                 what = 'configuration boolean converted as bool(str), not as _str_to_bool'
@@ -545,10 +569,316 @@ def py_backend(s):
     return ('BFile', s)
 
 
+# ----------------------------------------------------------------------------- discovery: parse() without an options file
+# the documented candidates, newest location first (docs/source/configuration.rst, docs/source/history.rst)
+SPEC_CANDIDATES = ['~/.config/jug/jugrc', '~/.config/jugrc', '~/.jug/configrc']
+
+
+class Other:
+    """An attribute value that is neither None/bool/int/str/list of str, seen through its name only."""
+    def __init__(self, name):
+        self.__name__ = name
+
+    def __eq__(self, o):
+        return isinstance(o, Other) and o.__name__ == self.__name__
+
+    def __hash__(self):
+        return hash(self.__name__)
+
+
+def canon(v):
+    if v is MISSING or v is None or isinstance(v, (bool, int, str)):
+        return v
+    if isinstance(v, list) and all(isinstance(x, str) for x in v):
+        return v
+    return Other(getattr(v, '__name__', type(v).__name__))
+
+
+def dec(e):
+    tag = e[0]
+    if tag == 'missing':
+        return MISSING
+    if tag == 'none':
+        return None
+    if tag == 'other':
+        return Other(e[1])
+    return e[1]
+
+
+# Runs in a brand-new interpreter (as the `jug` command does): nothing of jug is imported before, no subcommand module is
+# loaded when the first parse() starts, HOME is the scratch home of the first case already in the environment.
+CHILD = r"""
+import sys, os, json, io, contextlib, traceback, logging, datetime as _dt
+job = json.load(sys.stdin)
+sys.path.insert(0, job['repo'])
+import jug.options as O
+if not os.path.abspath(O.__file__).startswith(os.path.abspath(job['repo']) + os.sep):
+    raise SystemExit('jug imported from %s, not from %s' % (O.__file__, job['repo']))
+MISSING = object()
+class FakeDatetime:
+    def __init__(self, date):
+        self._d = _dt.datetime.strptime(date, '%Y-%m-%d')
+    def now(self):
+        return self._d
+def enc(v):
+    if v is MISSING:
+        return ['missing']
+    if v is None:
+        return ['none']
+    if isinstance(v, bool):
+        return ['bool', v]
+    if isinstance(v, int):
+        return ['int', v]
+    if isinstance(v, str):
+        return ['str', v]
+    if isinstance(v, list) and all(isinstance(x, str) for x in v):
+        return ['list', v]
+    return ['other', getattr(v, '__name__', type(v).__name__)]
+def frame(exc):
+    name = None
+    for fr in traceback.extract_tb(exc.__traceback__):
+        if fr.filename.replace('\\', '/').endswith('jug/options.py'):
+            name = fr.name
+    return name
+res = []
+for i, case in enumerate(job['cases']):
+    os.environ['HOME'] = case['home']
+    loaded_before = sorted(m for m in sys.modules if m.startswith('jug.subcommands.'))
+    root = logging.getLogger()
+    saved = (sys.argv[:], root.level, O.datetime)
+    O.datetime = FakeDatetime(case['date'])
+    try:
+        try:
+            with contextlib.redirect_stdout(io.StringIO()), contextlib.redirect_stderr(io.StringIO()):
+                opts = O.parse(list(case['args']))
+                attrs = {k: enc(getattr(opts, k, MISSING)) for k in job['keys']}
+            r = {'outcome': 'ok', 'attrs': attrs, 'argv': list(sys.argv)}
+        except SystemExit:
+            r = {'outcome': 'arg-error'}
+        except (ValueError, TypeError, KeyError) as e:
+            where = frame(e)
+            if where == 'read_configuration_file':
+                r = {'outcome': 'coerce-error'}
+            elif where == 'parse':
+                r = {'outcome': 'format-error'}
+            else:
+                r = {'outcome': 'crash', 'error': '%s: %s (in %s)' % (type(e).__name__, e, where)}
+        except Exception as e:
+            r = {'outcome': 'crash', 'error': '%s: %s' % (type(e).__name__, e)}
+    finally:
+        sys.argv[:] = saved[0]
+        root.level = saved[1]
+        O.datetime = saved[2]
+    r['first_parse'] = (i == 0 and not loaded_before)
+    res.append(r)
+sys.__stdout__.write('RESULT ' + json.dumps(res) + '\n')
+"""
+
+
+def write_home(home_dir, home):
+    """home: {'~/rel/path': ('file', [(section, key, value)...]) | ('text', content) | ('dir',)}; anything not listed
+    does not exist."""
+    os.makedirs(home_dir)
+    for path, what in home.items():
+        if not path.startswith('~/'):
+            raise ValueError(path)
+        fname = os.path.join(home_dir, *path[2:].split('/'))
+        os.makedirs(os.path.dirname(fname), exist_ok=True)
+        if what[0] == 'dir':
+            os.makedirs(fname)
+        else:
+            with open(fname, 'w') as f:
+                f.write(what[1] if what[0] == 'text' else render_cfg(what[1]))
+
+
+def run_child(cases, keys):
+    """cases: [{'home': dir, 'args': [...], 'date': ...}] -> [observation] in one fresh interpreter, or an error string."""
+    env = dict(os.environ)
+    env['HOME'] = cases[0]['home']
+    job = json.dumps({'repo': core.REPO, 'keys': keys, 'cases': cases})
+    last = 'not run'
+    for _ in range(2):                       # a loaded machine must not look like a violation: one retry
+        try:
+            p = subprocess.run([sys.executable, '-c', CHILD], input=job, env=env, stdout=subprocess.PIPE,
+                               stderr=subprocess.PIPE, universal_newlines=True, timeout=300, cwd=cases[0]['home'])
+        except subprocess.TimeoutExpired:
+            last = 'timeout'
+            continue
+        for line in p.stdout.splitlines():
+            if line.startswith('RESULT '):
+                return [obs_of(r) for r in json.loads(line[7:])]
+        last = 'exit %s: %s' % (p.returncode, p.stderr.strip()[-400:])
+    return last
+
+
+def obs_of(r):
+    """child record -> the same tuple run_real returns (+ 'crash'), with the first-parse flag"""
+    if r['outcome'] == 'ok':
+        return ('ok', {k: dec(v) for k, v in r['attrs'].items()}, r['argv']), r['first_parse']
+    if r['outcome'] == 'crash':
+        return ('crash', r['error']), r['first_parse']
+    return (r['outcome'],), r['first_parse']
+
+
+def home_json(home):
+    return {p: ('<directory>' if w[0] == 'dir' else render_cfg(w[1])) for p, w in home.items()}
+
+
+def home_lit(home):
+    def cand(w):
+        if w[0] == 'dir':
+            return 'CUnreadable'
+        return '(CFile %s)' % listlit(['(%s, %s, %s)' % (cs(s), cs(k), cs(v)) for s, k, v in w[1]])
+    return listlit(['(%s, %s)' % (cs(p), cand(w)) for p, w in home.items()])
+
+
+def discovered(home, candidates):
+    """-> (path of the first existing candidate or None, the entries of THE configuration file, decided)
+    decided=False: the first existing candidate cannot be opened - what then is the code's choice (no configuration),
+    the property does not say; such cases are compared with the model only."""
+    for p in candidates:
+        if p in home:
+            if home[p][0] == 'dir':
+                return p, [], False
+            return p, list(home[p][1]), True
+    return None, [], True
+
+
+def merge_cfg(*parts):
+    """Entries of several generated lists as ONE file: no (section, key) twice (configparser is strict)."""
+    out, used = [], set()
+    for part in parts:
+        for s_, k, v in part:
+            if (s_, k) in used:
+                continue
+            used.add((s_, k))
+            out.append((s_, k, v))
+    return cfg_in_file_order(out)
+
+
+def some_home(g, defaults, candidates):
+    """What lies at each candidate path: nothing / a directory / a file.  The files of one home draw from a common
+    pool of option names (overlapping settings, independent values and spellings) plus settings of their own."""
+    rng = g.rng
+    plain = [n for n in g.names if n != 'print_out']
+    pool = [rng.choice(plain) for _ in range(rng.choice([1, 2, 3, 4, 6]))]
+    for n in ('jugdir', 'jugfile'):
+        if rng.random() < 0.5:
+            pool.append(n)
+    p_absent = rng.choice([0.15, 0.35, 0.35, 0.6])
+    home, first_seen = {}, False
+    for p in candidates:
+        r = rng.random()
+        if r < p_absent:
+            continue
+        if r < p_absent + 0.05:
+            home[p] = ('dir',)
+            first_seen = True
+            continue
+        shared = []
+        for name in pool:
+            if rng.random() < 0.65:
+                sec, key = cfg_spelling(rng, name)
+                if key and key[0] not in '#;[' and key == key.lower():
+                    shared.append((sec, key, cfg_value(rng, name, defaults.get(name, MISSING))))
+        own = g.some_config(defaults, n=rng.choice([0, 0, 1, 2, 4])) if rng.random() < 0.8 else []
+        poison = []
+        if first_seen and rng.random() < 0.25:
+            # a file that must not be read at all may hold anything, e.g. a value that cannot be converted
+            ints = [n for n in plain if isinstance(defaults.get(n, MISSING), int) and not isinstance(defaults.get(n), bool)]
+            if ints:
+                poison = [cfg_spelling(rng, rng.choice(ints)) + (rng.choice(CFG_INT_BAD),)]
+        parts = [shared, own, poison]
+        rng.shuffle(parts)
+        home[p] = ('file', merge_cfg(*parts))
+        first_seen = True
+    items = list(home.items())
+    rng.shuffle(items)
+    return collections.OrderedDict(items)
+
+
+SYS_CONFIGS = [        # overlapping (jugdir, nr-wait-cycles, will-cite, jugfile) and disjoint settings, booleans in several spellings
+    [('main', 'jugdir', 'A.%(jugfile)s.store'), ('main', 'will-cite', 'on'), ('execute', 'nr-wait-cycles', '5'),
+     ('execute', 'keep-going', 'off')],
+    [('main', 'jugdir', 'B-store'), ('main', 'short', 'yes'), ('main', 'jugfile', 'b.py'), ('execute', 'nr_wait_cycles', '7'),
+     ('execute', 'wait-cycle-time', '3'), ('main', 'will_cite', 'False')],
+    [('main', 'jugdir', 'C-%(date)s'), ('main', 'jugfile', 'old.py'), ('main', 'pdb', 'TRUE'), ('main', 'will-cite', '0'),
+     ('execute', 'nr-wait-cycles', '99'), ('execute', 'keep-going', 'true'), ('cleanup', 'keep-locks', '1'),
+     ('status', 'cache', 'off'), ('main', 'verbose', 'info')],
+    [('main', 'jugdir', 'D'), ('main', 'debug', '1'), ('execute', 'keep-failed', 'On')],
+]
+
+
+class DiscoveryRun:
+    """Generates the discovery cases, builds their scratch homes and starts the fresh interpreters in the background
+    (they run while the in-process families are computed); gather() waits for them and removes the scratch homes."""
+
+    def __init__(self, ck, g, tab, defaults, keys):
+        # candidate paths: the documented ones and whatever the source names (the model follows the source's list, the
+        # restated property the documented one; they are proved equal - C20_generated_rc_candidates)
+        src_candidates = list(tab.get('rc_candidates') or [])
+        paths = SPEC_CANDIDATES + [p for p in src_candidates if p not in SPEC_CANDIDATES]
+        self.waited = None
+        self.stack = contextlib.ExitStack()
+        atexit.register(self.stack.close)          # nothing stays behind even if the check dies before gather()
+        scratch = self.stack.enter_context(jugrun.scratch_dir('jugv_c20_home'))
+        batches = []            # one batch = one fresh interpreter: [(case, args, home)]
+        # systematic: every subset of the candidate files (each file different), command line with/without overrides
+        over = [(f, r) for f, r in [('--jugdir', 'cli-%(jugfile)s'), ('--nr-wait-cycles', '0'), ('--will-cite', '')]
+                if ('execute', f) in g.optmap]
+        subsets = [[p for j, p in enumerate(paths) if (m >> j) & 1] for m in range(2 ** len(paths))]
+        if len(subsets) > 16:
+            subsets = [subsets[0], subsets[-1]] + ck.rng.sample(subsets[1:-1], 14)
+        for si, present in enumerate(subsets):
+            home = collections.OrderedDict((p, ('file', cfg_in_file_order(SYS_CONFIGS[paths.index(p) % len(SYS_CONFIGS)])))
+                                           for p in reversed(present))
+            variants = [Case('execute', [], [], ('plain', None), None, DATES[0]),
+                        Case('execute', over, ['proj.py'], ('plain', None), None, DATES[1]),
+                        Case('status' if 'status' in g.subs else g.subs[0], [], ['proj.py', 'extra'], ('plain', None), None, DATES[0])]
+            variants = [c for c in variants if c.sub in g.subs]
+            variants = variants[si % len(variants):] + variants[:si % len(variants)]
+            batches.append(('discovery-systematic', [(c, g.argv(c), home) for c in variants]))
+        # random
+        n_children, per_child = ck.n(24, 300), 10
+        for _ in range(n_children):
+            batch = []
+            for j in range(per_child):
+                home = some_home(g, defaults, paths)
+                if j == 0 and not any(w[0] == 'file' and len(w[1]) >= 2 for w in home.values()):
+                    home = some_home(g, defaults, paths)       # the first parse of a process should have something to read
+                c = g.case(defaults)
+                batch.append((c._replace(cfg=None), g.argv(c), home))
+            batches.append(('discovery', batch))
+        jobs = []
+        for bi, (family, batch) in enumerate(batches):
+            cases = []
+            for ci, (c, args, home) in enumerate(batch):
+                hd = os.path.join(scratch, 'b%03d' % bi, 'h%02d' % ci)
+                write_home(hd, home)
+                cases.append({'home': hd, 'args': args, 'date': c.date})
+            jobs.append(cases)
+        self.batches = batches
+        self.pool = ThreadPoolExecutor(max_workers=max(2, min(6, core.NPROC // 2)))
+        self.futures = [self.pool.submit(run_child, cases, keys) for cases in jobs]
+
+    def gather(self):
+        t0 = time.time()
+        try:
+            results = [f.result() for f in self.futures]
+        finally:
+            self.pool.shutdown()
+            self.stack.close()
+        self.waited = round(time.time() - t0, 1)
+        return self.batches, results
+
+
 # ----------------------------------------------------------------------------- the check
-CHK = ('fun x => match x with (c, cfg, date, obs) => outcome_eqb (run table c cfg date obs_keys) obs end')
+# a case names its configuration either directly (inl: the entries of the options file passed to parse) or as a home
+# directory in which parse() has to find it (inr: what lies at each candidate path)
+CHK = ('fun x => match x with (c, src, date, obs) => outcome_eqb (match src with '
+       'inl cfg => run table c cfg date obs_keys | inr h => run_home table c rc_candidates h date obs_keys end) obs end')
 IMPORTS = 'From JugV Require Import Model.Options Gen.OptionTable.\nLocal Open Scope string_scope.'
-CASE_TYPE = 'cmdline * config * string * outcome'
+CASE_TYPE = 'cmdline * (config + home) * string * outcome'
 
 
 def setup(ck, lenient=False):
@@ -586,7 +916,9 @@ def run(ck):
         'C20: argparse itself (how a token list is split into options and positional words) is outside the model; the harness '
         'renders each structured command line only in shapes whose reading is unambiguous and the outcome is compared',
         'C20: configparser (file syntax, lower-casing of keys, strict duplicates) is outside the model',
-        'C20: harness/translate_c20.py (ast extractor of the option table, fail closed)',
+        'C20: harness/translate_c20.py (ast extractor of the option table and of the candidate rc paths, fail closed)',
+        'C20: os.path.expanduser / os.path.exists / open (how "~" and HOME name a file) are outside the model; the harness '
+        'builds real scratch HOME directories and parses in fresh interpreters',
     ]
     ck.assumptions = ['strings are printable ASCII; %-formatting is modelled for literal text, %% and %(key)s only',
                       'argparse prefix abbreviations of option names and -h/--help are not modelled (not generated)']
@@ -620,6 +952,10 @@ def run(ck):
         ck.distinct((case.sub, tuple(case.opts), tuple(case.pos), tuple(case.cfg), case.date, case.layout),
                     bool(case.opts or case.cfg))
         return obs, agree
+
+    # (d) is prepared first: its fresh interpreters run in the background while (a)-(c) are computed in this process
+    disc = DiscoveryRun(ck, g, tab, defaults, keys)
+    cdefaults = {k: canon(v) for k, v in defaults.items()}
 
     # ------------------------------------------------------------ (a) systematic: every option x every layer combination
     entries_by_dest = collections.OrderedDict()
@@ -706,11 +1042,67 @@ def run(ck):
             k = next(iter(seen))
             ck.count('same-project:%s' % (k[0] if len(k) == 1 else 'one-location'))
 
+    # ------------------------------------------------------------ (d) the configuration file is DISCOVERED (fresh interpreters)
+    batches, results = disc.gather()
+    ck.dist['discovery: fresh interpreters'] = len(batches)
+    ck.dist['discovery: wall_s waited for the fresh interpreters'] = disc.waited
+    for (family, batch), res in zip(batches, results):
+        if isinstance(res, str):
+            ck.broken.append('discovery: the fresh interpreter did not report (%s)' % res)
+            ck.count('discovery:child-failed')
+            continue
+        for (c, args, home), (obs, first_parse) in zip(batch, res):
+            first, cfg, decided = discovered(home, SPEC_CANDIDATES)
+            case = c._replace(cfg=cfg)
+            hj = home_json(home)
+            meta = {'family': family, 'args': args, 'home': hj, 'date': c.date, 'first_parse_of_its_process': first_parse,
+                    'observed': obs[0] if obs[0] != 'ok' else {'argv': obs[2], 'attrs': {k: jval(v) for k, v in obs[1].items()}}}
+            ck.count('%s:%s' % (family, obs[0]))
+            ck.count('discovery-candidates-existing:%d' % len(home))
+            if first_parse:
+                ck.count('discovery-first-parse-of-a-fresh-process')
+            ck.distinct(('home', c.sub, tuple(c.opts), tuple(c.pos), tuple(sorted(hj.items())), c.date, c.layout), bool(home))
+            if obs[0] == 'crash':
+                ck.violation({'kind': 'impl-violation', 'what': 'options.parse raised an unexpected error', 'family': family,
+                              'option': None, 'args': args, 'home': hj, 'date': c.date, 'expected': 'no crash', 'observed': obs[1],
+                              'how_to_run': 'bin/check C20 --replay <this file>'})
+                continue
+            if decided:
+                exp = expected(case, tab, cdefaults, keys)
+
+                def hint(k, e, o, home=home, first=first):
+                    for p in SPEC_CANDIDATES[SPEC_CANDIDATES.index(first) + 1 if first else 0:]:
+                        if p in home and home[p][0] == 'file':
+                            for s_, key, v in home[p][1]:
+                                if py_new_name(s_, key) == k:
+                                    try:
+                                        if same(py_coerce(cdefaults.get(k, MISSING), v), o):
+                                            return ('option taken from a lower-priority rc file (%s) although %s exists: the '
+                                                    'configuration file is the FIRST existing candidate only' % (p, first))
+                                    except Unconvertible:
+                                        pass
+                    return None
+                compare(ck, case, args, obs, exp, keys, cdefaults, family,
+                        extra={'home': hj, 'configuration_file': first or '<none>', 'first_parse_of_its_process': first_parse},
+                        hint=hint if first else None)
+            else:
+                ck.count('discovery:first-candidate-unreadable(model only)')
+            lits.append(case_lit(c, outcome_lit(obs, keys), home=home))
+            metas.append(meta)
+            if first_parse and len(home) >= 2 and obs[0] == 'ok':
+                ck.sample(meta, limit=6)
+
     # ------------------------------------------------------------ evaluate the model on everything observed
+    # (the passed-file cases and the discovered-file cases are one list: they are evaluated by the same coqc processes)
     fails = ck.cases('options', IMPORTS, CASE_TYPE, CHK, lits, shard=ck.n(160, 400), preamble=preamble) if coq_ok else None
     for i in (fails or []):
-        ck.violation({'kind': 'correspondence', 'what': 'Model.Options.run and jug.options.parse disagree (%s)' % metas[i]['family'],
-                      'case': metas[i], 'coq_case': lits[i], 'obs_keys': keys})
+        if 'home' in metas[i]:
+            ck.violation({'kind': 'correspondence', 'what': 'Model.Options.run_home and jug.options.parse (no options file) disagree (%s)'
+                          % metas[i]['family'], 'case': metas[i], 'args': metas[i]['args'], 'home': metas[i]['home'],
+                          'date': metas[i]['date'], 'coq_case': lits[i], 'obs_keys': keys})
+        else:
+            ck.violation({'kind': 'correspondence', 'what': 'Model.Options.run and jug.options.parse disagree (%s)' % metas[i]['family'],
+                          'case': metas[i], 'coq_case': lits[i], 'obs_keys': keys})
 
     # ------------------------------------------------------------ backends.select vs backend_of
     strs = sorted(set([d for d, _ in loc_cases] + TPL_HEADS + ['', 'jugdata', 'dict_store:x.pkl', 'dict_storex', 'redis:',
@@ -738,12 +1130,30 @@ def run(ck):
 
 def replay(obj):
     """Re-execute one recorded command line + configuration file against /repo."""
-    if 'args' not in obj or 'config_text' not in obj:
+    if 'args' not in obj or ('config_text' not in obj and 'home' not in obj):
         print('replay: nothing executable in this file:', obj.get('kind'), obj.get('no_longer_checks', ''))
         return 2
     opt = obj.get('option')
     keys = [opt] if opt and opt != 'sys.argv' else ['jugdir']
-    obs = run_real(obj['args'], obj['config_text'], obj.get('date', DATES[0]), keys)
+    if 'home' in obj:
+        # the configuration file is discovered: a scratch HOME with the recorded files, parse(args) without an options
+        # file as the first parse of a fresh interpreter
+        home = {p: (('dir',) if t == '<directory>' else ('text', t)) for p, t in obj['home'].items()}
+        with jugrun.scratch_dir('jugv_c20_replay') as scratch:
+            hd = os.path.join(scratch, 'home')
+            write_home(hd, home)
+            res = run_child([{'home': hd, 'args': obj['args'], 'date': obj.get('date', DATES[0])}], keys)
+        if isinstance(res, str):
+            print('replay: the fresh interpreter did not report:', res)
+            return 2
+        obs = res[0][0]
+        if obs[0] == 'crash':
+            obs = ('crash: ' + obs[1],)
+        for p in sorted(home):
+            print('HOME     ', p, ' ', repr(obj['home'][p]))
+        print('the configuration file is the first existing of', SPEC_CANDIDATES, '->', obj.get('configuration_file'))
+    else:
+        obs = run_real(obj['args'], obj['config_text'], obj.get('date', DATES[0]), keys)
     if obs[0] != 'ok':
         got = obs[0]
     elif opt == 'sys.argv':
@@ -753,7 +1163,7 @@ def replay(obj):
     else:
         got = 'ok'
     print('args     ', obj['args'])
-    print('config   ', repr(obj['config_text']))
+    print('config   ', repr(obj.get('config_text')))
     print('option   ', opt, ' layers', obj.get('layers'))
     print('observed ', repr(got))
     print('expected ', repr(obj.get('expected')))
